@@ -9,6 +9,11 @@ if [ -n "$(git status --porcelain)" ]; then echo "/repo not clean"; exit 3; fi
 if ! git apply "$patch"; then echo "PATCH DOES NOT APPLY"; git checkout -- . ; exit 4; fi
 trap 'cd /repo && git checkout -- . && git clean -fdq' EXIT
 go build ./... || { echo "DOES NOT BUILD"; exit 5; }
-for p in $props; do
-  /verif/bin/mtverif -property $p -no-evidence 2>&1 | grep -E "^(C[0-9]+ tier|  violated|VIOLATION|UNDECIDED)" 
-done
+if [ "$props" = "all" ]; then
+  # one process: the program is loaded and the engines run once for all properties
+  /verif/bin/mtverif -property all -no-evidence 2>&1 | grep -E "^(C[0-9]+ tier|  violated|VIOLATION|UNDECIDED)"
+else
+  for p in $props; do
+    /verif/bin/mtverif -property $p -no-evidence 2>&1 | grep -E "^(C[0-9]+ tier|  violated|VIOLATION|UNDECIDED)" 
+  done
+fi
